@@ -265,6 +265,8 @@ func readReplyErr(conn net.Conn) ([]byte, error) {
 	return rep, rerr
 }
 
+func isPanicMode(m string) bool { return len(m) > 5 && m[:5] == "panic" }
+
 func head(b []byte) []byte {
 	if len(b) > 32 {
 		return b[:32]
@@ -485,6 +487,41 @@ func runSeq(c *Case, r *mon.Rec, rng *rand.Rand) {
 		}
 		if conn == nil {
 			continue
+		}
+		if !st.control && !isPanicMode(f.mode) && rng.Intn(6) == 0 {
+			// the client gives up in the middle of a frame: connection abandoned with bytes pending in its assembler;
+			// the connections that follow (several, so that any recycled per-connection state is met again) start clean
+			junk := mkFrame(rng, "valid", 0)
+			_, _ = conn.Write(junk.b[:1+rng.Intn(len(junk.b)-1)])
+			conn.Close()
+			time.Sleep(2 * time.Millisecond)
+			for k := 0; k < 3; k++ {
+				nc, _, derr := l.Dial(2 * time.Second)
+				if derr != nil {
+					r.Violate(c, "server-unreachable-after-panic", mon.Attrs{"mode": "abandoned-partial-frame"}, derr.Error())
+					fault = nil
+					return
+				}
+				pf := mkFrame(rng, "valid", 3)
+				pf.mode = "dev"
+				for used[pf.tid] {
+					pf = mkFrame(rng, "valid", 3)
+					pf.mode = "dev"
+				}
+				used[pf.tid] = true
+				_ = nc.SetWriteDeadline(time.Now().Add(2 * time.Second))
+				if _, werr := nc.Write(pf.b); werr != nil {
+					r.Violate(c, "connection-lost", mon.Attrs{"where": "fresh-connection"}, werr.Error())
+					return
+				}
+				checkReply(c, r, pf, readReply(nc), refDev.Serve(specref.TCP, pf.b), "fresh-connection-after-abandoned-one")
+				if k < 2 {
+					nc.Close()
+				} else {
+					fault = nc
+					conn = nc
+				}
+			}
 		}
 		_ = conn.SetWriteDeadline(time.Now().Add(2 * time.Second))
 		rest := f.b
